@@ -459,7 +459,7 @@ def special_items():
     yield Item(["Display"], '#[display(rename_all = "SCREAMING_SNAKE_CASE")]\npub enum @N@ { FooBar, #[display(rename_all = "kebab-case")] BazQux, Plain(u8) }', ("special", "rename_all", "none", "plain", "rename_all"))
     yield Item(["Pointer"], '#[pointer("{a:p} {:p}", *b)]\npub struct @N@<\'x> { a: &\'x u8, b: &\'x u16 }', ("special", "pointer", "'x", "plain", "attr"))
     yield Item(["From"], "#[from(::std::borrow::Cow<'static, str>, ::std::string::String, &'static str)]\npub struct @N@(::std::borrow::Cow<'static, str>);", ("special", "from-types-paths", "none", "plain", "types"))
-    yield Item(["Into"], "#[into(ref((str, f64)))]\npub struct @N@ { #[into(ref)] #[into(skip)] a: u8, b: ::std::string::String, c: f64 }", ("special", "into-ref-skip", "none", "plain", "ref,skip"))
+    yield Item(["Into"], "#[into(ref((::std::string::String, f64)))]\npub struct @N@ { #[into(ref)] #[into(skip)] a: u8, b: ::std::string::String, c: f64 }", ("special", "into-ref-skip", "none", "plain", "ref,skip"))
     yield Item(["TryInto"], "#[try_into(owned, ref, ref_mut)]\npub enum @N@<T, const N: usize> { A([T; N]), B(::std::vec::Vec<T>), #[try_into(ignore)] C }", ("special", "try_into-generic", "T,constN", "plain", "owned,ref,ref_mut"))
     yield Item(["Error", "Display"], '#[display("e")]\npub struct @N@<E> { #[error(source)] inner: E, #[error(not(backtrace))] backtrace: u8 }', ("special", "error-not-backtrace", "E", "plain", "source,not(backtrace)"), std_derives=["Debug"])
     yield Item(["Error", "Display"], '#[display("e")]\npub struct @N@(::std::boxed::Box<dyn ::std::error::Error + ::core::marker::Send + ::core::marker::Sync + \'static>);', ("special", "error-boxed-dyn", "none", "plain", "inferred"), std_derives=["Debug"])
@@ -532,8 +532,34 @@ def macro_items():
     yield m(["FromStr", "Display", "IsVariant", "Unwrap", "TryUnwrap"], "$a:ident, $b:ident", "@DERIVE@ pub enum @N@ { $a, $b }", "First, r#Second", "ident-variants")
 
 
+def typekind_items():
+    """Field types of every syntactic kind (derives that look at a field's type must not assume a plain path)."""
+    kinds = [("ref-str", "&'static str"), ("ref-slice", "&'static [u8]"), ("array", "[u8; 4]"), ("tuple", "(u8, i16)"), ("unit", "()"),
+             ("fn-ptr", "fn(u8) -> u8"), ("raw-ptr", "*const u8"), ("qself", "<u8 as ::core::ops::Add>::Output"),
+             ("nested-generic", "::core::option::Option<::std::boxed::Box<[u16; 2]>>"), ("ref-dyn", "&'static (dyn ::core::fmt::Debug + ::core::marker::Sync)"),
+             ("box-dyn", "::std::boxed::Box<dyn ::core::fmt::Debug>"), ("ref-ref", "&'static &'static i32"), ("tuple1", "(u8,)"),
+             ("array-of-tuples", "[(u8, &'static str); 2]"), ("fn-ptr-generic-ret", "fn() -> ::std::vec::Vec<(u8, u8)>")]
+    for key, ty in kinds:
+        # (`impl From<S> for <u8 as Add>::Output` overlaps with core's reflexive impl as far as rustc can tell)
+        conv = [] if key == "qself" else ["From", "Into"]
+        yield Item(["Constructor", "Deref", "DerefMut", "AsRef", "AsMut", "Debug"] + conv, "pub struct @N@(%s);" % ty, ("typekind", "tuple1", "none", "plain", key))
+        yield Item(["Constructor", "Debug"] + conv, "pub struct @N@ { a: %s, r#type: u8 }" % ty, ("typekind", "named2", "none", "plain", key))
+        yield Item(["Display", "Debug"], '#[display("{_0:?}")]\n#[debug("{_0:?}")]\npub struct @N@(%s);' % ty, ("typekind", "fmt-attr", "none", "plain", key))
+        # (a projection type overlaps with everything as far as coherence can tell; a `()` field next to a unit variant
+        # makes two `TryFrom<E> for ()` groups)
+        enum_ds = ["IsVariant", "Unwrap", "TryUnwrap", "Debug"] + ([] if key in ("qself", "unit") else ["From", "TryInto"])
+        yield Item(enum_ds, "pub enum @N@ { A(%s), B(i128), C, D(%s, u64) }" % (ty, ty), ("typekind", "enum", "none", "plain", key))
+        yield Item(["Error", "Display", "Debug"], '#[display("e")]\npub struct @N@ { #[error(not(source))] source: %s, other: %s }' % (ty, ty), ("typekind", "error-not-source", "none", "plain", key))
+    # generic flavours: the parameter sits inside each kind of type
+    gk = [("ref", "&'a T"), ("array", "[T; 2]"), ("tuple", "(T, u8)"), ("fn-ptr", "fn(T) -> T"), ("raw-ptr", "*const T"), ("slice-ref", "&'a [T]"), ("nested", "::core::option::Option<&'a T>")]
+    for key, ty in gk:
+        yield Item(["From", "Constructor", "Deref", "AsRef"], "pub struct @N@<'a, T: 'a>(%s, ::core::marker::PhantomData<&'a T>);" % ty if False else "pub struct @N@<'a, T: 'a> { #[deref] #[as_ref] a: %s, b: ::core::marker::PhantomData<&'a T> }" % ty,
+                   ("typekind-generic", "named2", "'a,T", "plain", key))
+        yield Item(["Debug"], "pub struct @N@<'a, T: 'a>(%s, ::core::marker::PhantomData<&'a T>);" % ty, ("typekind-generic", "debug", "'a,T", "plain", key))
+
+
 def all_items():
-    return list(itertools.chain(cross_items(), ops_items(), fmt_items(), conv_items(), deleg_items(), enum_access_items(), error_items(), special_items()))
+    return list(itertools.chain(cross_items(), ops_items(), fmt_items(), conv_items(), deleg_items(), enum_access_items(), error_items(), special_items(), typekind_items()))
 
 
 def hostile_variants(item):
